@@ -457,8 +457,13 @@ static void array_case(uint64_t idx, vh_rng_t * rng, size_t n) {
     a = (unsigned char *) malloc(n * esz);
     for (i = 0; i < n; i++) {
         uint64_t v = biased64(rng);
-        if (kind == K_AF) { float f = (float) ((double) (int32_t) v / 1024.0); memcpy(a + i * 4, &f, 4); }
-        else if (kind == K_AD) { double d = (double) (int64_t) (v >> 11) / 65536.0; memcpy(a + i * 8, &d, 8); }
+        if (kind == K_AF) { float f = (float) ((double) (int32_t) v / 1024.0); if (idx & 16) { uint32_t fb; do { fb = (uint32_t) vh_rand(rng); memcpy(&f, &fb, 4); } while (!isfinite(f)); vh_count("array.float_items_over_the_full_range", 1); } memcpy(a + i * 4, &f, 4); }
+        else if (kind == K_AD) {
+            double d = (double) (int64_t) (v >> 11) / 65536.0;
+            /* full-range values: every item text length from 1 to the longest (-d.dddddddddddddde-ddd, 22 characters) at every position of the response */
+            if (idx & 16) { uint64_t db; do { db = vh_rand(rng); if (vh_chance(rng, 1, 2)) db |= 0x8000000000000000ULL; memcpy(&d, &db, 8); } while (!isfinite(d)); vh_count("array.double_items_over_the_full_range", 1); }
+            memcpy(a + i * 8, &d, 8);
+        }
         else memcpy(a + i * esz, &v, esz);
     }
     switch (kind) { case K_AI8: case K_AI16: case K_AI32: rd = RD_AI32; rsz = 4; break; case K_AU8: case K_AU16: case K_AU32: rd = RD_AU32; rsz = 4; break;
@@ -500,7 +505,7 @@ int main(int argc, char ** argv) {
     int rc;
     vh_require("int.roundtrips"); vh_require("text.roundtrips"); vh_require("text.with_double_quote"); vh_require("block.roundtrips");
     vh_require("block.empty"); vh_require("block.len_ge_1000"); vh_require("fp.double_roundtrips"); vh_require("fp.float_roundtrips"); vh_require("array.roundtrips");
-    vh_require("int.negative64"); vh_require("fp.power_of_two_or_neighbour"); vh_require("array.long.more_than_32768_items"); vh_require("array.long.more_than_65536_items");
+    vh_require("int.negative64"); vh_require("array.double_items_over_the_full_range"); vh_require("fp.power_of_two_or_neighbour"); vh_require("array.long.more_than_32768_items"); vh_require("array.long.more_than_65536_items");
     rc = vh_main(argc, argv, "C07", phases, 9);
     return rc;
 }
